@@ -80,8 +80,9 @@ deriving Repr, DecidableEq
 
 /-! ## What the server writes for one `process()` call (shared by pipe and HTTP: `OutputCollector` + `_flush_collector`)
 
-`flushed` = the collector's batches in emission order when the call succeeds; on an exception the collector is
-discarded and only the EXCEPTION batch is written (as built — see Findings/C08). -/
+`flushed` = the collector's batches in emission order when the call succeeds; on an exception the collector's LOG
+batches (everything but the data batch) are still written, followed by the EXCEPTION batch (repaired: the pinned tree
+discarded the collector — known_findings/C08.json). -/
 
 inductive StepOut where
   | cont (items : List Item)       -- data emitted, stream continues
@@ -96,14 +97,14 @@ def processStep (s : Step) : StepOut :=
   | .emit b => .cont (logItems s.logs ++ [.data b] ++ logItems s.post)
   | .finish => .done (logItems s.logs ++ logItems s.post)
   | .emitFinish b => .done (logItems s.logs ++ [.data b] ++ logItems s.post)
-  | .raise e => .fail [.err e]
-  | .nothing => .fail [.err noDataExn]
+  | .raise e => .fail (logItems s.logs ++ [.err e])
+  | .nothing => .fail (logItems s.logs ++ [.err noDataExn])
 
 /-- an exchange stream runs with `producer_mode = False`: `finish()` raises inside `process()` -/
 def processExchangeStep (s : Step) : StepOut :=
   match s.act with
-  | .finish => .fail [.err finishOnExchangeExn]
-  | .emitFinish _ => .fail [.err finishOnExchangeExn]
+  | .finish => .fail (logItems s.logs ++ logItems s.post ++ [.err finishOnExchangeExn])
+  | .emitFinish _ => .fail (logItems s.logs ++ logItems s.post ++ [.err finishOnExchangeExn])
   | _ => processStep s
 
 /-! ## Client-side reading (`_read_batch_with_log_check` / `_dispatch_log_or_error`) -/
